@@ -310,8 +310,23 @@ def multi_source_cli(run, tmp, pair, src, ref, fresh_cli):
     if 0 not in fresh_cli:
         return
     fresh_px = sig_px(tmp / 'freshcli0' / (pair.src_path.stem + post))
-    for k, (same_names, out_dir) in enumerate([(True, False), (False, False), (False, True)]):
+    # k = 3: non-default output encoding and a parameter image - the options of one call are shared by all its sources
+    enc_opts = ['-pi', '--dtype', 'int16', '--nodata', '-32768']
+    for k, (same_names, out_dir) in enumerate([(True, False), (False, False), (False, True), (False, True)]):
         root = tmp / f'multi{k}'
+        extra_opts = enc_opts if k == 3 else []
+        if k == 3:
+            d1 = tmp / 'freshcli_enc'
+            d1.mkdir()
+            shutil.copy(pair.src_path, d1 / pair.src_path.name)
+            shutil.copy(pair.ref_path, d1 / pair.ref_path.name)
+            with warnings.catch_warnings():
+                warnings.simplefilter('ignore')
+                r1 = CliRunner().invoke(cli.cli, ['fuse', str(d1 / pair.src_path.name), str(d1 / pair.ref_path.name), '-m', cfg['model'], '-k',
+                                                  str(cfg['kernel'][0]), str(cfg['kernel'][1]), '-nbo', '-t', '1'] + enc_opts)
+            if r1.exit_code != 0:
+                continue
+            fresh_px = sig_px(d1 / (pair.src_path.stem + post))
         (root / 'day1').mkdir(parents=True)
         (root / 'day2').mkdir()
         (root / 'refs').mkdir()
@@ -321,10 +336,13 @@ def multi_source_cli(run, tmp, pair, src, ref, fresh_cli):
         shutil.copy(pair.src_path, root / 'day2' / n2)
         shutil.copy(pair.ref_path, root / 'refs' / 'ref.tif')
         base = ['fuse', str(root / 'day1' / n1), str(root / 'day2' / n2), str(root / 'refs' / 'ref.tif'), '-m', cfg['model'], '-k',
-                str(cfg['kernel'][0]), str(cfg['kernel'][1]), '-nbo', '-t', '1'] + (['-od', str(root / 'out')] if out_dir else [])
+                str(cfg['kernel'][0]), str(cfg['kernel'][1]), '-nbo', '-t', '1'] + (['-od', str(root / 'out')] if out_dir else []) + extra_opts
         exp_outs = ({f'out/{pathlib.Path(n1).stem}{post}', f'out/{pathlib.Path(n2).stem}{post}'} if out_dir else
                     {f'day1/{pathlib.Path(n1).stem}{post}', f'day2/{pathlib.Path(n2).stem}{post}'})
-        case = dict(i=600_000 + k, op='cli, several sources', same_names=same_names, out_dir=out_dir)
+        main_outs = set(exp_outs)
+        if extra_opts:
+            exp_outs |= {str(pathlib.Path(n).with_name(pathlib.Path(n).stem + '_PARAM.tif')) for n in exp_outs}
+        case = dict(i=600_000 + k, op='cli, several sources', same_names=same_names, out_dir=out_dir, options=' '.join(extra_opts))
         for step, extra in enumerate(([], [], ['-o'])):
             before = tree_state(root)
             with warnings.catch_warnings():
@@ -354,7 +372,7 @@ def multi_source_cli(run, tmp, pair, src, ref, fresh_cli):
             if missing:
                 run.fail(sub, f'requested outputs are missing: {missing}', signature=dict(kind='output-missing'))
                 break
-            wrong = [n for n in exp_outs if sig_px(root / n) != fresh_px]
+            wrong = [n for n in sorted(main_outs) if sig_px(root / n) != fresh_px]
             if wrong:
                 run.fail(sub, f'outputs differ from what a fresh single run produces: {wrong}', signature=dict(kind='history-dependent'))
                 break
